@@ -1,10 +1,11 @@
 /-
   Oracle commands for C07 (runner prompt cache):
-    hist <resetEnd> <parallel> <ctx> <batch> <multi> <canShift> <vocab> <eosMod> <stopEarliest> <crCounted> <window|0> <n> <event>*
+    hist <resetEnd> <parallel> <ctx> <batch> <multi> <canShift> <vocab> <eosMod> <stopEarliest> <crCounted> <window|0> <cells> <n> <event>*
       event := req <keep> <numPredict> <nstops> <stop>* <nprompt> <tok>*
              | step <adopt>            adopt := - | e | loc.pos.tok.dpos.s+s,...   (layout observed after a defrag)
              | busy <nprompt> <tok>*
         -> the observations after every event, ` | `-separated (same text as the Go driver prints)
+    llhist <parallel> <ctx> <multi> <canShift> <n> {load <cachePrompt> <n> tok* | dec <slot> <n> tok* | shift <slot> <keep> | cut <slot> <k> | rel <slot>}*
     ll-longest <nslots> {<inUse> <lastUsed> <n> tok*}* <nprompt> tok*     (llamarunner pure functions)
     ll-best    <now> <nslots> {...}* <nprompt> tok*
     ll-discard <numCtx> <inputLen> <numKeep>
@@ -136,6 +137,52 @@ def pSlots : TP (List Slot) := do
       pure (s :: r)
   go n 0
 
+/-! llamarunner record histories -/
+
+def showSlots (c : Cache) : String :=
+  String.join (c.slots.map fun s => s!"S{s.id}:{if s.inUse then 1 else 0}:{s.lastUsed}:{showToks s.inputs};")
+
+def runLL (c : Cache) (now : Nat) : LLEvent → String × Cache
+  | .load cp prompt =>
+    match llLoad c prompt now cp with
+    | .error .nilDeref => ("load:panic", c)
+    | .error _ => ("load:err", c)
+    | .ok (c', i, rest) => (s!"load:ok,slot={(getSlot c'.slots i).id},rest={rest.length}", c')
+  | .dec i toks =>
+    ("dec", { c with slots := setSlot c.slots i fun s => { s with inputs := s.inputs ++ toks } })
+  | .shift i keep =>
+    match llShift c i keep with
+    | .errKeep => ("shift:errkeep", c)
+    | .ok c' => ("shift:ok", c')
+    | .reprocess c' ins => (s!"shift:reproc,{showToks ins}", c')
+  | .cut i k =>
+    ("cut", { c with slots := setSlot c.slots i fun s => { s with inputs := s.inputs.take k, inUse := false } })
+  | .rel i => ("rel", { c with slots := setSlot c.slots i fun s => { s with inUse := false } })
+
+def runLLHist (c : Cache) : List LLEvent → Nat → List String → List String
+  | [], _, acc => acc.reverse
+  | e :: es, now, acc =>
+    let (o, c') := runLL c now e
+    runLLHist c' es (now + 1) ((o ++ " {" ++ showSlots c' ++ "}") :: acc)
+
+def pLLEvent : TP LLEvent := do
+  let k ← tok
+  match k with
+  | "load" =>
+    let cp ← nat
+    return .load (cp != 0) (← listOf nat)
+  | "dec" =>
+    let i ← nat
+    return .dec i (← listOf nat)
+  | "shift" =>
+    let i ← nat
+    return .shift i (← nat)
+  | "cut" =>
+    let i ← nat
+    return .cut i (← nat)
+  | "rel" => return .rel (← nat)
+  | _ => failure
+
 def showFind : Except Fail (Nat × Nat) → String
   | .ok (i, n) => s!"ok {i} {n}"
   | .error .noSlots => "err:noslots"
@@ -157,10 +204,24 @@ def handle (toks : List String) : Option String :=
       let crCounted ← nat
       let w ← nat
       let window := if w == 0 then none else some w
-      let evs ← listOf (pEvent (capacity parallel ctx batch window))
-      let sv := { mkServer resetEnd parallel ctx batch (multi != 0) (canShift != 0) vocab eosMod window with
+      let cap ← nat            -- number of cells of the real cache (Causal.Init)
+      -- the variant of Init's sizing the tree has; an unknown size makes every observation differ
+      let psb := cap != capacityV false parallel ctx batch window
+      if cap != capacityV psb parallel ctx batch window then failure
+      let evs ← listOf (pEvent cap)
+      let sv := { mkServer resetEnd parallel ctx batch (multi != 0) (canShift != 0) vocab eosMod window psb with
                   stopEarliest := stopEarliest != 0, crCounted := crCounted != 0 }
       pure (joinWith " | " (runHist sv evs 1 []))) rest
+  | "llhist" :: rest =>
+    runTP (do
+      let parallel ← nat
+      let ctx ← nat
+      let multi ← nat
+      let canShift ← nat
+      let evs ← listOf pLLEvent
+      let c : Cache := { numCtx := ctx, multiUser := multi != 0, canShift := canShift != 0, resetEnd := -1,
+                         slots := (List.range parallel).map fun i => ⟨i, [], false, 0⟩, cells := [] }
+      pure (joinWith " | " (runLLHist c evs 1 []))) rest
   | "ll-longest" :: rest =>
     runTP (do
       let slots ← pSlots
